@@ -154,9 +154,73 @@ inline std::string gen_value(Rng& r) {
   return v;
 }
 
-struct GenOpts { int max_dim = 9; uint64_t max_coef = 4000; int max_aux = 40; };
+// ---- auxiliary values with apostrophes (C06: 'auxiliary keys preserved') ---------------------------------
+// A FITS string card stores an apostrophe as two; write_key accepts a value for a short key when
+// length + number of apostrophes <= 68.  Classes (all printable ASCII, all accepted by write_key):
+//   0 single inside        1 leading            2 trailing            3 leading and trailing
+//   4 adjacent run inside  5 apostrophes only   6 at the card limit (length + apostrophes = 66..68)
+//   7 dense random mix     8 around the 8-character padding boundary (doubled length 6..10)
+//   9 apostrophe next to blank / slash (comment separator look-alikes)
+//  10 apostrophe(s) followed by blanks to the end   11 ends in '&' (long-string continuation marker), with apostrophes
+//  12 run at the start     13 run at the end
+static const int N_QCLS = 14;
+inline const char* qcls_name(int c) {
+  static const char* n[] = {"single-inside", "leading", "trailing", "leading+trailing", "adjacent-run-inside", "apostrophes-only",
+                            "card-limit", "dense-mix", "pad8-boundary", "next-to-blank-or-slash", "then-trailing-blanks", "ampersand-end",
+                            "run-at-start", "run-at-end"};
+  return n[c];
+}
+inline size_t stored_len(const std::string& v) { return v.size() + std::count(v.begin(), v.end(), '\''); }
+inline std::string plain_text(Rng& r, int n) {   // printable, no apostrophe, first and last not blank
+  std::string v;
+  for (int i = 0; i < n; i++) {
+    char c;
+    do { c = r.coin(1, 6) ? ' ' : (char)r.range(33, 126); } while (c == '\'' || (c == ' ' && (i == 0 || i == n - 1)));
+    v += c;
+  }
+  return v;
+}
+inline std::string gen_value_q(Rng& r, int cls) {
+  std::string q(1, '\''), v;
+  auto run = [&](int lo, int hi) { return std::string(r.range(lo, hi), '\''); };
+  switch (cls) {
+    case 0: v = plain_text(r, r.range(1, 12)) + q + plain_text(r, r.range(1, 12)); break;
+    case 1: v = q + plain_text(r, r.range(1, 20)); break;
+    case 2: v = plain_text(r, r.range(1, 20)) + q; break;
+    case 3: v = q + plain_text(r, r.range(0, 20)) + q; break;
+    case 4: v = plain_text(r, r.range(1, 10)) + run(2, 6) + plain_text(r, r.range(1, 10)); if (r.coin(1, 3)) v += run(2, 3) + plain_text(r, r.range(1, 5)); break;
+    case 5: v = run(1, 34); if (r.coin(1, 4)) v = std::string(r.coin() ? 34 : r.range(1, 4), '\''); break;
+    case 6: {   // exactly at / just below the limit; the last stored column is a plain character, one half or the other of a pair
+      int target = r.range(66, 68);
+      int nq = r.coin(1, 5) ? target / 2 : r.range(1, 12);
+      int np = target - 2 * nq;
+      std::string chars = std::string(nq, '\'') + plain_text(r, np);
+      int style = r.below(4);
+      if (style == 0) { for (int i = (int)chars.size() - 1; i > 0; i--) std::swap(chars[i], chars[r.below(i + 1)]); }   // anywhere
+      else if (style == 1) chars = plain_text(r, np) + std::string(nq, '\'');                                             // run ends at the limit
+      else if (style == 2) { std::string p = plain_text(r, np); size_t k = p.size() ? r.below(p.size()) : 0; chars = p.substr(0, k) + std::string(nq, '\'') + p.substr(k); }
+      v = chars; break; }
+    case 7: { int n = r.range(1, 30); for (int i = 0; i < n; i++) v += r.coin(1, 3) ? '\'' : r.coin(1, 5) ? ' ' : (char)r.range(33, 126); break; }
+    case 8: {   // doubled length 6..10: below, at and above the padding to 8
+      int target = r.range(6, 10); int nq = r.range(1, target / 2); int np = target - 2 * nq;
+      std::string chars = std::string(nq, '\'') + std::string(np, 'a');
+      for (int i = 0; i < np; i++) chars[nq + i] = r.coin(1, 6) ? ' ' : (char)r.range(65, 90);
+      for (int i = (int)chars.size() - 1; i > 0; i--) std::swap(chars[i], chars[r.below(i + 1)]);
+      v = chars; break; }
+    case 9: { static const char* f[] = {"a' / b", "' /", "'/ comment", "x'' / y", "/'", " ' ", "' '", "'' ''", "= 'v' / c", "' / '", "''/''", "a '' b", "' ''"};
+      v = f[r.below(sizeof(f) / sizeof(f[0]))]; if (r.coin(1, 3)) v = plain_text(r, r.range(1, 8)) + v; break; }
+    case 10: v = (r.coin() ? plain_text(r, r.range(0, 10)) : std::string()) + run(1, 3) + std::string(r.range(1, 12), ' '); break;
+    case 11: v = (r.coin() ? q : std::string()) + plain_text(r, r.range(0, 10)) + (r.coin() ? run(1, 2) : std::string()) + "&"; break;
+    case 12: v = run(2, 6) + plain_text(r, r.range(1, 12)); break;
+    default: v = plain_text(r, r.range(1, 12)) + run(2, 6); break;
+  }
+  while (stored_len(v) > 68) v.erase(v.size() / 2, 1);   // cannot happen for the classes above; keeps write_key's precondition in any case
+  return v;
+}
 
-inline Spec gen_spec(Rng& r, const GenOpts& g, int force_dim = 0) {
+struct GenOpts { int max_dim = 9; uint64_t max_coef = 4000; int max_aux = 40; bool aux_quotes = false; };
+
+inline Spec gen_spec(Rng& r, const GenOpts& g, int force_dim = 0, int force_qcls = -1) {
   Spec s;
   int distinct = 5, tries = 0;
   for (;;) {
@@ -200,6 +264,21 @@ inline Spec gen_spec(Rng& r, const GenOpts& g, int force_dim = 0) {
   int na = r.coin(1, 4) ? 0 : r.coin(1, 6) ? g.max_aux : r.range(1, 12);
   std::set<std::string> seen;
   for (int i = 0; i < na; i++) { std::string k = gen_key(r); if (seen.insert(k).second) s.aux.push_back({k, gen_value(r)}); }
+  if (g.aux_quotes) {   // only drawn when asked for, so that the stream of the other users of this generator is unchanged
+    for (auto& kv : s.aux) if (r.coin(2, 5)) kv.second = gen_value_q(r, r.below(N_QCLS));
+    if (r.coin(1, 3)) {      // a key next to the reserved / FITS-semantic names: strict prefix, one character more, name not at the start
+      static const char* near[] = {"TYP", "ORDE", "NAXI", "PERIO", "EXTEN", "COMMEN", "SIMPL", "BITPI", "XTYPE", "MYORDER", "ANAXIS1", "APERIOD0", "XEXTEND",
+                                   "XSIMPLE", "XBITPIX", "ACOMMENT", "EXTNAM", "HDUNAM", "EN", "ENDX", "HISTOR", "CONTINU", "HIERARC", "BLANKS", "XTENSIO", "T", "E",
+                                   "0ORDER", "ORDE0", "NAXI1", "PCOUN", "GCOUN", "BSCAL", "BZER"};
+      std::string k = near[r.below(sizeof(near) / sizeof(near[0]))];
+      if (!reserved_or_semantic(k) && seen.insert(k).second)
+        s.aux.insert(s.aux.begin() + r.below(s.aux.size() + 1), {k, r.coin() ? gen_value(r) : gen_value_q(r, r.below(N_QCLS))});
+    }
+    if (force_qcls >= 0) {   // one value of a given class at a random position among the keys
+      std::string k = "QV" + std::to_string(force_qcls);
+      if (seen.insert(k).second) s.aux.insert(s.aux.begin() + r.below(s.aux.size() + 1), {k, gen_value_q(r, force_qcls)});
+    }
+  }
   return s;
 }
 
